@@ -730,5 +730,10 @@ PROPS["C11"]["explanation"] += " (APPENDTAIL) a new DFAN directory block is link
 PROPS["C14"]["rules"] = PROPS["C14"]["rules"] + [rules_ref.rule_preread_then_seek]
 PROPS["C14"]["explanation"] += " (PREREADSEEK) a bit file opened for writing over existing data is moved back to its block with an absolute seek after the pre-read, so that reading through a write-mode handle rewrites identical bytes in place."
 
+PROPS["C10"]["rules"] = PROPS["C10"]["rules"] + [rules_attr.rule_class_flag_under_class_test, rules_attr.rule_attr_value_and_count_together]
+PROPS["C10"]["explanation"] += " (CLASSFLAG) hdf_read_dims sets its DimVal flags directly under the class test of the Vdata. (ATTRLEN) GRsetattr stores the element count on every successful path that copies a new value into an attribute's buffer."
+PROPS["C07"]["rules"] = PROPS["C07"]["rules"] + [rules_loops.rule_read_list_indirection, rules_loops.rule_matched_index_used]
+PROPS["C07"]["explanation"] += " (IDXMAP) loops over the read list index the stored-field tables through r->item[j]. (MATCHIDX) after a field-name match the sibling tables are read at the matched index."
+
 NOT_APPLICABLE = {}
 
